@@ -43,7 +43,7 @@ CHECKS = {
  "C14": dict(
   technique="exhaustive context x probe-value enumeration + rapid nested expressions whose leaves are side-effecting probes (calls printing a tag, assignments used as expressions), oracle = reference evaluator on the tag trace and the printed result",
   text="Every binary and logical operator spelling x every ordered pair of 18 probe values (every value kind, both truthiness classes, NaN, -0, empty string by literal and by concatenation), every condition/!/logical context x every probe value, 15 three-probe contexts (array and object literals, call arguments, var lists, index read/store, property store, mixed precedence, nested calls) x 64 value triples, store/callee/assignment-order contexts, and random nestings with 2-8 probes: the tag trace must be the left-to-right reading order with each tag once, skipped operands must not appear, logical operators yield the deciding operand itself, and the truthiness table is the same in conditions, ! and logical operators. Exploration.",
-  note="Trusted: the reference evaluator (order decisions fixed in DESIGN.md appendix A). Where an operation fails the order of the failure against remaining operands' effects is not asserted.",
+  note="Trusted: the reference evaluator (order decisions fixed in DESIGN.md appendix A). Operands are evaluated before an operation fails (calls with a non-callable callee or a wrong argument count, stores on non-containers): asserted since fixed finding K23.",
   ref="4 C14"),
  "C17": dict(
   technique="exhaustive built-in x arity x argument-kind matrix + permutation enumeration for min/max + rapid random doubles, oracle = independent exact computations (sign-bit abs, big.Float-verified sqrt, exact-rational round-half-away), 1-ulp tolerance for pow/sin/cos/tan, metamorphic ঘাত(a,b) == a ** b, clock window",
